@@ -140,7 +140,9 @@ def cell_list(ctx, rule):
     fill = None
     for node in walk_no_nested(fn):
         if isinstance(node, ast.For) and node is not outer and node is not loop \
-                and not any(node is a for a in ast.walk(outer)):
+                and not any(node is a for a in ast.walk(outer)) \
+                and any(last_attr(c) == 'setdefault' and dotted(c.func.value) == boxes_name
+                        for c in calls_in(node)):
             fill = node
     fill_ok = False
     key_vars = []
